@@ -1,0 +1,10 @@
+//go:build verif
+
+package repository
+
+// VerifSetPaths points the repositories directory and the official repository URL somewhere else (both are
+// otherwise fixed at process start). Only compiled with the `verif` build tag.
+func VerifSetPaths(dir, officialURL string) {
+	repositoriesDir = dir
+	officialPluginRepositoryURL = officialURL
+}
